@@ -7,124 +7,169 @@ open Gama.Gen.GkfAttrs
 
 variable {K : Type}
 
-theorem rdOr_fmt (F : NumFmt K) (hF : F.Lawful) (x d : K) : rdOr F (some (F.fmt x)) d = .ok x := by
-  simp [rdOr, hF.rd_fmt]
+variable {R : K → Prop}
+
+theorem rdOr_fmt (F : NumFmt K) (hF : F.LawfulOn R) (x d : K) (hx : R x) : rdOr F (some (F.fmt x)) d = .ok x := by
+  simp [rdOr, hF.rd_fmt x hx]
 
 theorem rdOr_none (F : NumFmt K) (d : K) : rdOr F none d = .ok d := rfl
 
 set_option maxRecDepth 2000 in
 set_option maxHeartbeats 1600000 in
-theorem pe_distance (F : NumFmt K) (hF : F.Lawful) (cf : String) (impl : K)
+theorem pe_distance (F : NumFmt K) (hF : F.LawfulOn R) (cf : String) (impl : K)
     (from_ to fs : String) (val stdev fromDh toDh fsDh : K) (extern : String)
+    (r1 : R val) (r2 : R stdev) (r3 : R fromDh) (r4 : R toDh) (r5 : R fsDh)
     (h1 : from_ ≠ "") (h2 : to ≠ "") (h4 : fs = "") (h5 : fsDh = F.zero) :
     parseObs F cf F.zero impl .distance (exportObs F true cf ⟨.distance, from_, to, fs, val, stdev, fromDh, toDh, fsDh, extern⟩).2
       = .ok ⟨.distance, from_, to, fs, val, stdev, fromDh, toDh, fsDh, extern⟩ := by
   have iz : ∀ x, F.isZero x = true ↔ x = F.zero := hF.isZero_iff
+  have q1 := hF.rd_fmt val r1
+  have q2 := hF.rd_fmt stdev r2
+  have q3 := hF.rd_fmt fromDh r3
+  have q4 := hF.rd_fmt toDh r4
+  have q5 := hF.rd_fmt fsDh r5
   by_cases e2 : fromDh = F.zero <;> by_cases e3 : toDh = F.zero <;> by_cases e1 : cf = from_ <;> by_cases e5 : extern = "" <;>
-  simp [exportObs, parseObs, reach, route, dhAttr, Kind.elem, rdOr, hF.rd_fmt, bind, Except.bind, pure, Except.pure,
+  simp [exportObs, parseObs, reach, route, dhAttr, Kind.elem, rdOr, q1, q2, q3, q4, q5, bind, Except.bind, pure, Except.pure,
     iz, h1, h2, *]
 
 set_option maxRecDepth 2000 in
 set_option maxHeartbeats 1600000 in
-theorem pe_sdistance (F : NumFmt K) (hF : F.Lawful) (cf : String) (impl : K)
+theorem pe_sdistance (F : NumFmt K) (hF : F.LawfulOn R) (cf : String) (impl : K)
     (from_ to fs : String) (val stdev fromDh toDh fsDh : K) (extern : String)
+    (r1 : R val) (r2 : R stdev) (r3 : R fromDh) (r4 : R toDh) (r5 : R fsDh)
     (h1 : from_ ≠ "") (h2 : to ≠ "") (h4 : fs = "") (h5 : fsDh = F.zero) :
     parseObs F cf F.zero impl .sdistance (exportObs F true cf ⟨.sdistance, from_, to, fs, val, stdev, fromDh, toDh, fsDh, extern⟩).2
       = .ok ⟨.sdistance, from_, to, fs, val, stdev, fromDh, toDh, fsDh, extern⟩ := by
   have iz : ∀ x, F.isZero x = true ↔ x = F.zero := hF.isZero_iff
+  have q1 := hF.rd_fmt val r1
+  have q2 := hF.rd_fmt stdev r2
+  have q3 := hF.rd_fmt fromDh r3
+  have q4 := hF.rd_fmt toDh r4
+  have q5 := hF.rd_fmt fsDh r5
   by_cases e2 : fromDh = F.zero <;> by_cases e3 : toDh = F.zero <;> by_cases e1 : cf = from_ <;> by_cases e5 : extern = "" <;>
-  simp [exportObs, parseObs, reach, route, dhAttr, Kind.elem, rdOr, hF.rd_fmt, bind, Except.bind, pure, Except.pure,
+  simp [exportObs, parseObs, reach, route, dhAttr, Kind.elem, rdOr, q1, q2, q3, q4, q5, bind, Except.bind, pure, Except.pure,
     iz, h1, h2, *]
 
 set_option maxRecDepth 2000 in
 set_option maxHeartbeats 1600000 in
-theorem pe_zangle (F : NumFmt K) (hF : F.Lawful) (cf : String) (impl : K)
+theorem pe_zangle (F : NumFmt K) (hF : F.LawfulOn R) (cf : String) (impl : K)
     (from_ to fs : String) (val stdev fromDh toDh fsDh : K) (extern : String)
+    (r1 : R val) (r2 : R stdev) (r3 : R fromDh) (r4 : R toDh) (r5 : R fsDh)
     (h1 : from_ ≠ "") (h2 : to ≠ "") (h4 : fs = "") (h5 : fsDh = F.zero) :
     parseObs F cf F.zero impl .zangle (exportObs F true cf ⟨.zangle, from_, to, fs, val, stdev, fromDh, toDh, fsDh, extern⟩).2
       = .ok ⟨.zangle, from_, to, fs, val, stdev, fromDh, toDh, fsDh, extern⟩ := by
   have iz : ∀ x, F.isZero x = true ↔ x = F.zero := hF.isZero_iff
+  have q1 := hF.rd_fmt val r1
+  have q2 := hF.rd_fmt stdev r2
+  have q3 := hF.rd_fmt fromDh r3
+  have q4 := hF.rd_fmt toDh r4
+  have q5 := hF.rd_fmt fsDh r5
   by_cases e2 : fromDh = F.zero <;> by_cases e3 : toDh = F.zero <;> by_cases e1 : cf = from_ <;> by_cases e5 : extern = "" <;>
-  simp [exportObs, parseObs, reach, route, dhAttr, Kind.elem, rdOr, hF.rd_fmt, bind, Except.bind, pure, Except.pure,
+  simp [exportObs, parseObs, reach, route, dhAttr, Kind.elem, rdOr, q1, q2, q3, q4, q5, bind, Except.bind, pure, Except.pure,
     iz, h1, h2, *]
 
 set_option maxRecDepth 2000 in
 set_option maxHeartbeats 1600000 in
-theorem pe_azimuth (F : NumFmt K) (hF : F.Lawful) (cf : String) (impl : K)
+theorem pe_azimuth (F : NumFmt K) (hF : F.LawfulOn R) (cf : String) (impl : K)
     (from_ to fs : String) (val stdev fromDh toDh fsDh : K) (extern : String)
+    (r1 : R val) (r2 : R stdev) (r3 : R fromDh) (r4 : R toDh) (r5 : R fsDh)
     (h1 : from_ ≠ "") (h2 : to ≠ "") (h4 : fs = "") (h5 : fsDh = F.zero) :
     parseObs F cf F.zero impl .azimuth (exportObs F true cf ⟨.azimuth, from_, to, fs, val, stdev, fromDh, toDh, fsDh, extern⟩).2
       = .ok ⟨.azimuth, from_, to, fs, val, stdev, fromDh, toDh, fsDh, extern⟩ := by
   have iz : ∀ x, F.isZero x = true ↔ x = F.zero := hF.isZero_iff
+  have q1 := hF.rd_fmt val r1
+  have q2 := hF.rd_fmt stdev r2
+  have q3 := hF.rd_fmt fromDh r3
+  have q4 := hF.rd_fmt toDh r4
+  have q5 := hF.rd_fmt fsDh r5
   by_cases e2 : fromDh = F.zero <;> by_cases e3 : toDh = F.zero <;> by_cases e1 : cf = from_ <;> by_cases e5 : extern = "" <;>
-  simp [exportObs, parseObs, reach, route, dhAttr, Kind.elem, rdOr, hF.rd_fmt, bind, Except.bind, pure, Except.pure,
+  simp [exportObs, parseObs, reach, route, dhAttr, Kind.elem, rdOr, q1, q2, q3, q4, q5, bind, Except.bind, pure, Except.pure,
     iz, h1, h2, *]
 
 set_option maxRecDepth 2000 in
 set_option maxHeartbeats 1600000 in
-theorem pe_direction (F : NumFmt K) (hF : F.Lawful) (cf : String) (impl : K)
+theorem pe_direction (F : NumFmt K) (hF : F.LawfulOn R) (cf : String) (impl : K)
     (from_ to fs : String) (val stdev fromDh toDh fsDh : K) (extern : String)
+    (r1 : R val) (r2 : R stdev) (r3 : R fromDh) (r4 : R toDh) (r5 : R fsDh)
     (h1 : from_ ≠ "") (h2 : to ≠ "") (h4 : fs = "") (h5 : fsDh = F.zero) (h6 : from_ = cf) :
     parseObs F cf F.zero impl .direction (exportObs F true cf ⟨.direction, from_, to, fs, val, stdev, fromDh, toDh, fsDh, extern⟩).2
       = .ok ⟨.direction, from_, to, fs, val, stdev, fromDh, toDh, fsDh, extern⟩ := by
   have iz : ∀ x, F.isZero x = true ↔ x = F.zero := hF.isZero_iff
+  have q1 := hF.rd_fmt val r1
+  have q2 := hF.rd_fmt stdev r2
+  have q3 := hF.rd_fmt fromDh r3
+  have q4 := hF.rd_fmt toDh r4
+  have q5 := hF.rd_fmt fsDh r5
   subst h6
   by_cases e2 : fromDh = F.zero <;> by_cases e3 : toDh = F.zero <;> by_cases e5 : extern = "" <;>
-  simp [exportObs, parseObs, reach, route, dhAttr, Kind.elem, rdOr, hF.rd_fmt, bind, Except.bind, pure, Except.pure,
+  simp [exportObs, parseObs, reach, route, dhAttr, Kind.elem, rdOr, q1, q2, q3, q4, q5, bind, Except.bind, pure, Except.pure,
     iz, h1, h2, *]
 
 set_option maxRecDepth 2000 in
 set_option maxHeartbeats 1600000 in
-theorem pe_angle (F : NumFmt K) (hF : F.Lawful) (cf : String) (impl : K)
+theorem pe_angle (F : NumFmt K) (hF : F.LawfulOn R) (cf : String) (impl : K)
     (from_ to fs : String) (val stdev fromDh toDh fsDh : K) (extern : String)
+    (r1 : R val) (r2 : R stdev) (r3 : R fromDh) (r4 : R toDh) (r5 : R fsDh)
     (h1 : from_ ≠ "") (h2 : to ≠ "") (h3 : fs ≠ "") :
     parseObs F cf F.zero impl .angle (exportObs F true cf ⟨.angle, from_, to, fs, val, stdev, fromDh, toDh, fsDh, extern⟩).2
       = .ok ⟨.angle, from_, to, fs, val, stdev, fromDh, toDh, fsDh, extern⟩ := by
   have iz : ∀ x, F.isZero x = true ↔ x = F.zero := hF.isZero_iff
+  have q1 := hF.rd_fmt val r1
+  have q2 := hF.rd_fmt stdev r2
+  have q3 := hF.rd_fmt fromDh r3
+  have q4 := hF.rd_fmt toDh r4
+  have q5 := hF.rd_fmt fsDh r5
   by_cases e2 : fromDh = F.zero <;> by_cases e3 : toDh = F.zero <;> by_cases e4 : fsDh = F.zero <;> by_cases e1 : cf = from_ <;> by_cases e5 : extern = "" <;>
-  simp [exportObs, parseObs, reach, route, dhAttr, Kind.elem, rdOr, hF.rd_fmt, bind, Except.bind, pure, Except.pure,
+  simp [exportObs, parseObs, reach, route, dhAttr, Kind.elem, rdOr, q1, q2, q3, q4, q5, bind, Except.bind, pure, Except.pure,
     iz, h1, h2, *]
 
-theorem parse_export_obs (F : NumFmt K) (hF : F.Lawful) (cf : String) (impl : K) (o : Obs K)
-    (hw : o.WF F) (hdir : o.kind = .direction → o.from_ = cf) :
+theorem parse_export_obs (F : NumFmt K) (hF : F.LawfulOn R) (cf : String) (impl : K) (o : Obs K)
+    (hw : o.WF F) (hr : o.Rep R) (hdir : o.kind = .direction → o.from_ = cf) :
     parseObs F cf F.zero impl o.kind (exportObs F true cf o).2 = .ok o := by
   obtain ⟨kind, from_, to, fs, val, stdev, fromDh, toDh, fsDh, extern⟩ := o
   obtain ⟨h1, h2, h3, h4⟩ := hw
-  simp only at h1 h2 h3 h4 hdir
+  obtain ⟨r1, r2, r3, r4, r5⟩ := hr
+  simp only at h1 h2 h3 h4 hdir r1 r2 r3 r4 r5
   cases kind
-  · exact pe_distance F hF cf impl _ _ _ _ _ _ _ _ _ h1 h2 (h4 (by decide)).1 (h4 (by decide)).2
-  · exact pe_direction F hF cf impl _ _ _ _ _ _ _ _ _ h1 h2 (h4 (by decide)).1 (h4 (by decide)).2 (hdir rfl)
-  · exact pe_angle F hF cf impl _ _ _ _ _ _ _ _ _ h1 h2 (h3 rfl)
-  · exact pe_sdistance F hF cf impl _ _ _ _ _ _ _ _ _ h1 h2 (h4 (by decide)).1 (h4 (by decide)).2
-  · exact pe_zangle F hF cf impl _ _ _ _ _ _ _ _ _ h1 h2 (h4 (by decide)).1 (h4 (by decide)).2
-  · exact pe_azimuth F hF cf impl _ _ _ _ _ _ _ _ _ h1 h2 (h4 (by decide)).1 (h4 (by decide)).2
+  · exact pe_distance F hF cf impl _ _ _ _ _ _ _ _ _ r1 r2 r3 r4 r5 h1 h2 (h4 (by decide)).1 (h4 (by decide)).2
+  · exact pe_direction F hF cf impl _ _ _ _ _ _ _ _ _ r1 r2 r3 r4 r5 h1 h2 (h4 (by decide)).1 (h4 (by decide)).2 (hdir rfl)
+  · exact pe_angle F hF cf impl _ _ _ _ _ _ _ _ _ r1 r2 r3 r4 r5 h1 h2 (h3 rfl)
+  · exact pe_sdistance F hF cf impl _ _ _ _ _ _ _ _ _ r1 r2 r3 r4 r5 h1 h2 (h4 (by decide)).1 (h4 (by decide)).2
+  · exact pe_zangle F hF cf impl _ _ _ _ _ _ _ _ _ r1 r2 r3 r4 r5 h1 h2 (h4 (by decide)).1 (h4 (by decide)).2
+  · exact pe_azimuth F hF cf impl _ _ _ _ _ _ _ _ _ r1 r2 r3 r4 r5 h1 h2 (h4 (by decide)).1 (h4 (by decide)).2
 
 /-- at the pinned commit `extern` is not exported: the round trip holds only for observations without it -/
-theorem parse_export_obs_noext_witness (F : NumFmt K) (hF : F.Lawful) (x : K) :
+theorem parse_export_obs_noext_witness (F : NumFmt K) (hF : F.LawfulOn R) (x : K) (hx : R x) :
     parseObs F "A" F.zero x .distance
       (exportObs F false "A" ⟨.distance, "A", "B", "", x, x, F.zero, F.zero, F.zero, "e1"⟩).2
       = .ok ⟨.distance, "A", "B", "", x, x, F.zero, F.zero, F.zero, ""⟩ := by
   have iz : F.isZero F.zero = true := (hF.isZero_iff _).mpr rfl
-  simp [exportObs, parseObs, reach, route, dhAttr, Kind.elem, rdOr, hF.rd_fmt, bind, Except.bind, pure, Except.pure, iz]
+  simp [exportObs, parseObs, reach, route, dhAttr, Kind.elem, rdOr, hF.rd_fmt x hx, bind, Except.bind, pure, Except.pure, iz]
 
-theorem parse_export_dh (F : NumFmt K) (hF : F.Lawful) (sd : K → K) (pos : K → Bool) (h : HDiff K)
-    (h1 : h.from_ ≠ "") (h2 : h.to ≠ "")
+theorem parse_export_dh (F : NumFmt K) (hF : F.LawfulOn R) (sd : K → K) (pos : K → Bool) (h : HDiff K)
+    (h1 : h.from_ ≠ "") (h2 : h.to ≠ "") (hr : R h.val ∧ (pos h.dist = true → R h.dist) ∧ (pos h.dist = false → R h.stdev))
     (hpos : pos h.dist = false → h.dist = F.zero)          -- `dist > 0` fails only for dist = 0 (parser rejects dist < 0)
     (hsd : pos h.dist = true → h.stdev = sd h.dist) :      -- a distance was given: stdev is the implied one
     parseDh F sd (exportDh F true pos h).2 = .ok h := by
   obtain ⟨from_, to, val, dist, stdev, extern⟩ := h
-  simp only at h1 h2 hpos hsd
+  simp only at h1 h2 hpos hsd hr
+  have q1 := hF.rd_fmt val hr.1
   cases hp : pos dist <;> by_cases e5 : extern = "" <;>
-  simp [exportDh, parseDh, reach, route, rdOr, hF.rd_fmt, bind, Except.bind, pure, Except.pure, hp, e5, h1, h2]
-  all_goals simp_all
+  simp [exportDh, parseDh, reach, route, rdOr, q1, bind, Except.bind, pure, Except.pure, hp, e5, h1, h2]
+  all_goals simp_all [hF.rd_fmt]
 
-theorem mapM_rd_fmt (F : NumFmt K) (hF : F.Lawful) (xs : List K) : (xs.map F.fmt).mapM F.rd = some xs := by
+theorem mapM_rd_fmt (F : NumFmt K) (hF : F.LawfulOn R) (xs : List K) (hx : ∀ x ∈ xs, R x) :
+    (xs.map F.fmt).mapM F.rd = some xs := by
   induction xs with
   | nil => rfl
-  | cons x xs ih => simp [List.mapM_cons, hF.rd_fmt, ih]
+  | cons x xs ih =>
+    have h1 := hF.rd_fmt x (hx x List.mem_cons_self)
+    have h2 := ih (fun y hy => hx y (List.mem_cons_of_mem _ hy))
+    simp [List.mapM_cons, h1, h2]
 
-theorem parse_export_cov (F : NumFmt K) (hF : F.Lawful) (c : Cov K) : parseCov F (exportCov F c) = some c := by
-  simp [parseCov, exportCov, mapM_rd_fmt F hF]
+theorem parse_export_cov (F : NumFmt K) (hF : F.LawfulOn R) (c : Cov K) (hx : ∀ x ∈ c.data, R x) :
+    parseCov F (exportCov F c) = some c := by
+  simp [parseCov, exportCov, mapM_rd_fmt F hF c.data hx]
 
 theorem mapM_ok {α β : Type} {ε : Type} (f : α → Except ε β) (g : β → α) (l : List β)
     (h : ∀ b ∈ l, f (g b) = .ok b) : (l.map g).mapM f = .ok l := by
@@ -137,15 +182,15 @@ theorem mapM_ok {α β : Type} {ε : Type} (f : α → Except ε β) (g : β →
 
 theorem kindOf_elem (k : Kind) : kindOf k.elem = some k := by cases k <;> rfl
 
-theorem parse_export_cluster (F : NumFmt K) (hF : F.Lawful) (impl : Kind → K) (c : StandPoint K)
-    (hw : ∀ o ∈ c.obs, o.WF F) (hdir : ∀ o ∈ c.obs, o.kind = .direction → o.from_ = c.station) :
+theorem parse_export_cluster (F : NumFmt K) (hF : F.LawfulOn R) (impl : Kind → K) (c : StandPoint K)
+    (hw : ∀ o ∈ c.obs, o.WF F) (hr : ∀ o ∈ c.obs, o.Rep R) (hdir : ∀ o ∈ c.obs, o.kind = .direction → o.from_ = c.station) :
     parseCluster F impl (exportCluster F true c) = .ok c := by
   unfold parseCluster exportCluster
   have h := mapM_ok (parseElem F impl c.station) (exportObs F true c.station) c.obs
     (fun o ho => by
       have : (exportObs F true c.station o).1 = o.kind.elem := rfl
       simp only [parseElem, this, kindOf_elem]
-      exact parse_export_obs F hF c.station (impl o.kind) o (hw o ho) (hdir o ho))
+      exact parse_export_obs F hF c.station (impl o.kind) o (hw o ho) (hr o ho) (hdir o ho))
   simp only [h]
 
 theorem flipWith_flipWith (neg : K → K) (hneg : ∀ x, neg (neg x) = x) (bs : List Bool) (xs : List K) :
@@ -162,11 +207,30 @@ theorem mirrorCov_mirrorCov (neg : K → K) (hneg : ∀ x, neg (neg x) = x) (mir
   simp [mirrorCov, flipWith_flipWith neg hneg]
 
 /-- exporting the internal (mirrored or not) matrix and reading it back with the same axes/angles gives it back -/
-theorem parse_export_covY (F : NumFmt K) (hF : F.Lawful) (neg : K → K) (hneg : ∀ x, neg (neg x) = x) (ysign : Bool)
-    (mir : Nat → Bool) (c : Cov K) :
+theorem flipWith_mem (neg : K → K) (hR : ∀ x, R x → R (neg x)) (bs : List Bool) (xs : List K) (hx : ∀ x ∈ xs, R x) :
+    ∀ x ∈ flipWith neg bs xs, R x := by
+  induction bs generalizing xs with
+  | nil => cases xs <;> simpa [flipWith] using hx
+  | cons b bs ih =>
+    cases xs with
+    | nil => simp [flipWith]
+    | cons y ys =>
+      intro x hxm
+      simp only [flipWith, List.mem_cons] at hxm
+      rcases hxm with h | h
+      · subst h
+        cases b
+        · exact hx y List.mem_cons_self
+        · exact hR y (hx y List.mem_cons_self)
+      · exact ih ys (fun z hz => hx z (List.mem_cons_of_mem _ hz)) x h
+
+theorem parse_export_covY (F : NumFmt K) (hF : F.LawfulOn R) (neg : K → K) (hneg : ∀ x, neg (neg x) = x)
+    (hR : ∀ x, R x → R (neg x)) (ysign : Bool) (mir : Nat → Bool) (c : Cov K) (hx : ∀ x ∈ c.data, R x) :
     parseCovY F neg ysign mir (exportCovY F neg ysign mir c) = some c := by
   unfold parseCovY exportCovY
-  rw [parse_export_cov F hF]
-  cases ysign <;> simp [mirrorCov_mirrorCov neg hneg]
+  cases ysign
+  · simp [parse_export_cov F hF c hx]
+  · have : ∀ x ∈ (mirrorCov neg mir c).data, R x := flipWith_mem neg hR _ _ hx
+    simp [parse_export_cov F hF _ this, mirrorCov_mirrorCov neg hneg]
 
 end Gama.Export
